@@ -32,6 +32,7 @@ pub struct TokenBinder {
     pub q: i128,
     pub seq: u32,
     pub accts: Vec<String>,
+    pub decimals: u32,
 }
 
 impl TokenBinder {
@@ -53,7 +54,8 @@ impl TokenBinder {
         }
         let seq = init["seq"].as_u64().unwrap() as u32;
         cx.set_seq(seq);
-        let meta = TokenMetadata { decimal: 7, name: SStr::from_str(&env, "Verif Token"), symbol: SStr::from_str(&env, "VRF") };
+        let decimals = inst.get("Decimals").and_then(|x| x.as_u64()).unwrap_or(7) as u32;
+        let meta = TokenMetadata { decimal: decimals, name: SStr::from_str(&env, "Verif Token"), symbol: SStr::from_str(&env, "VRF") };
         let token_id = BytesN::<32>::from_array(&env, &[7u8; 32]);
         let token = env.register(interchain_token::InterchainToken, (owner, minter, token_id, meta));
         cx.bind("token", &token);
@@ -61,7 +63,7 @@ impl TokenBinder {
             cx.addr(a);
         }
         cx.take_events();
-        TokenBinder { cx, inst: inst.clone(), token, q, seq, accts }
+        TokenBinder { cx, inst: inst.clone(), token, q, seq, accts, decimals }
     }
 
     fn amt(&self, act: &J) -> i128 {
@@ -214,7 +216,18 @@ impl TokenBinder {
             allowance.insert(n.clone(), J::Object(row));
         }
         let owner: Option<Address> = self.cx.query(&token, "owner", SVec::new(&env));
-        json!({"bal": bal, "allowance": allowance, "minters": minters,
+        // the token keeps reporting what it was constructed with
+        let mut meta: Vec<&str> = vec![];
+        let d: Option<u32> = self.cx.query(&token, "decimals", SVec::new(&env));
+        let n: Option<SStr> = self.cx.query(&token, "name", SVec::new(&env));
+        let sy: Option<SStr> = self.cx.query(&token, "symbol", SVec::new(&env));
+        let tid: Option<BytesN<32>> = self.cx.query(&token, "token_id", SVec::new(&env));
+        if d != Some(self.decimals) { meta.push("decimals"); }
+        if n.map(|x| sstr_to_string(&x)).as_deref() != Some("Verif Token") { meta.push("name"); }
+        if sy.map(|x| sstr_to_string(&x)).as_deref() != Some("VRF") { meta.push("symbol"); }
+        if tid.map(|b| b.to_array()) != Some([7u8; 32]) { meta.push("token_id"); }
+        let meta = if meta.is_empty() { "ok".to_string() } else { meta.join(",") };
+        json!({"meta": meta, "bal": bal, "allowance": allowance, "minters": minters,
                "owner": owner.map(|a| self.cx.name_of(&a)).unwrap_or("none".into()), "seq": self.seq})
     }
 }
